@@ -1178,6 +1178,10 @@ std::vector<T> wrap_boundary()
     r.push_back(static_cast<T>((static_cast<T>(1) << k) + 1U));
   r.push_back(static_cast<T>(0x55555555AAAAAAAAULL));
   r.push_back(static_cast<T>(0xF0F0F0F00F0F0F0FULL));
+  // a few seeded values of mixed magnitude
+  vf::rng g(vf::seed_for("wrap_boundary", sizeof(T)));
+  for (int i = 0; i < 8; ++i)
+    r.push_back(static_cast<T>(g.next() >> g.below(sizeof(T) * 8)));
   return r;
 }
 
@@ -2709,7 +2713,7 @@ void tree_family()
   if (!entry_selected("tree<int>"))
     return;
   family<tree> f;
-  std::size_t idx = 0;
+  std::size_t idx = static_cast<std::size_t>(vf::seed_for("tree<int>") % 6U); // which history goes with which tree
   auto add_all = [&](std::size_t nodes, int base) {
     for (mtree const &m : model_trees(nodes, base))
     {
@@ -2740,7 +2744,7 @@ void tree_family()
   for (std::size_t n = 1; n <= 4; ++n)
     add_all(n, 3);
   if (vf::thorough())
-    add_all(5, 2);
+    add_all(5, 3);
   auto observe = [](tree const &t) {
     comps c;
     observe_tree(t, c);
